@@ -1,6 +1,6 @@
 #!/venv/bin/python
 import sys
-sys.path.insert(0, '/tmp/scratch/deps'); sys.path.insert(0, '/repo')
+sys.path.insert(0, '/verif/.deps'); sys.path.insert(0, '/repo')
 import atheris
 with atheris.instrument_imports(include=['tapescript']):
     import tapescript
